@@ -15,134 +15,113 @@ func hashCommitShape(P *Program, R *Report, rule string) {
 	if fn == nil {
 		return
 	}
-	// encoder / digest / result chain
+	// encoder / digest / result chain, in HashCommit or in helpers it was split into
 	var marshal, sum, setBytes *ssa.Call
 	nMarshal, nSum := 0, 0
-	for _, c := range callsIn(fn) {
-		cc, _ := c.(*ssa.Call)
-		switch {
-		case isCallTo(c, "encoding/asn1.Marshal"):
-			marshal = cc
-			nMarshal++
-		case isCallTo(c, "crypto/sha256.Sum256"):
-			sum = cc
-			nSum++
-		case cc != nil && bigMethod(cc) == "SetBytes":
-			setBytes = cc
+	digestInputOK, wholeOK := false, false
+	wholeDetail := "no SetBytes call"
+	seqs := map[bool]string{}
+	seqOK := map[bool]bool{}
+	nMarker, markerOK := 0, true
+	nBranch := 0
+	deepVisit(P, fn, 2, func(g *ssa.Function) {
+		for _, b := range g.Blocks {
+			if iff, ok := b.Instrs[len(b.Instrs)-1].(*ssa.If); ok && strings.TrimPrefix(desc(iff.Cond), "!") == "arg#1" {
+				nBranch++
+			}
 		}
-	}
+		for _, c := range callsIn(g) {
+			cc, _ := c.(*ssa.Call)
+			if cc == nil {
+				continue
+			}
+			switch {
+			case isCallTo(c, "encoding/asn1.Marshal"):
+				marshal = cc
+				nMarshal++
+				for _, sig := range []bool{true, false} {
+					assume = map[string]bool{"arg#1": sig}
+					seq, ok := seqOf(stripConv(cc.Call.Args[0]))
+					seqs[sig], seqOK[sig] = seqString(seq), ok
+					assume = map[string]bool{}
+				}
+			case isCallTo(c, "crypto/sha256.Sum256"):
+				sum = cc
+				nSum++
+				if ex, ok := origin(cc.Call.Args[0]).(*ssa.Extract); ok && ex.Index == 0 {
+					if m, ok := ex.Tuple.(*ssa.Call); ok && isCallTo(m, "encoding/asn1.Marshal") {
+						digestInputOK = true
+					}
+				}
+			case bigMethod(cc) == "SetBytes":
+				setBytes = cc
+				wholeDetail = "SetBytes argument is " + desc(cc.Call.Args[1])
+				if sl, ok := cc.Call.Args[1].(*ssa.Slice); ok && sl.Low == nil && sl.High == nil {
+					if al, ok := sl.X.(*ssa.Alloc); ok {
+						for _, r := range referrersOf(al) {
+							if st, ok := r.(*ssa.Store); ok && st.Addr == al {
+								if o, ok := origin(st.Val).(*ssa.Call); ok && isCallTo(o, "crypto/sha256.Sum256") {
+									wholeOK = true
+								}
+							}
+						}
+					}
+				}
+			}
+		}
+		// the marker is written exactly under issig
+		allInstrs(g, func(i ssa.Instruction) {
+			st, ok := i.(*ssa.Store)
+			if !ok || desc(st.Val) != "true" {
+				return
+			}
+			if _, isIA := st.Addr.(*ssa.IndexAddr); !isIA {
+				return
+			}
+			nMarker++
+			under := false
+			for _, a := range controllingConds(st.Block()) {
+				a = normAtom(a)
+				if desc(a.V) == "arg#1" && a.Want == True {
+					under = true
+				}
+			}
+			if !under {
+				markerOK = false
+			}
+		})
+	})
 	R.decide(rule, key+":one-encoder", "exactly one encoder call, encoding/asn1.Marshal", nMarshal == 1 && marshal != nil, fmt.Sprintf("%d calls", nMarshal), P.Pos(fn.Pos()))
 	R.decide(rule, key+":one-digest", "exactly one digest, crypto/sha256.Sum256", nSum == 1 && sum != nil, fmt.Sprintf("%d calls", nSum), P.Pos(fn.Pos()))
 	if marshal == nil || sum == nil {
 		return
 	}
-	R.decide(rule, key+":digest-input", "the digest input is exactly the marshal result", desc(sum.Call.Args[0]) == desc(marshal)+"#0", "got "+desc(sum.Call.Args[0]), P.Pos(sum.Pos()))
-	// whole digest into the integer
-	okWhole := false
-	detail := "no SetBytes call"
-	if setBytes != nil {
-		detail = "SetBytes argument is " + desc(setBytes.Call.Args[1])
-		if sl, ok := setBytes.Call.Args[1].(*ssa.Slice); ok && sl.Low == nil && sl.High == nil {
-			if al, ok := sl.X.(*ssa.Alloc); ok {
-				for _, r := range referrersOf(al) {
-					if st, ok := r.(*ssa.Store); ok && st.Addr == al && st.Val == ssa.Value(sum) {
-						okWhole = true
-					}
-				}
-			}
-		}
-	}
-	R.decide(rule, key+":whole-digest", "the returned integer is SetBytes of the whole 32-byte digest (no truncation)", okWhole, detail, P.Pos(fn.Pos()))
+	R.decide(rule, key+":digest-input", "the digest input is exactly the marshal result", digestInputOK, "got "+desc(sum.Call.Args[0]), P.Pos(sum.Pos()))
+	R.decide(rule, key+":whole-digest", "the returned integer is SetBytes of the whole 32-byte digest (no truncation)", wholeOK, wholeDetail, P.Pos(fn.Pos()))
 	retOK := setBytes != nil
 	for _, r := range returnsOf(fn) {
-		if setBytes == nil || len(r.Results) != 1 || siteOf(r.Results[0]) != siteOf(setBytes) {
+		if setBytes == nil || len(r.Results) != 1 || siteOf(origin(r.Results[0])) != siteOf(setBytes) {
 			retOK = false
 		}
 	}
 	R.decide(rule, key+":result", "every return returns that integer", retOK, "", P.Pos(fn.Pos()))
-
-	// the encoded sequence, per value of issig
-	var branch *ssa.If
-	for _, b := range fn.Blocks {
-		if iff, ok := b.Instrs[len(b.Instrs)-1].(*ssa.If); ok && desc(iff.Cond) == "arg#1" {
-			if branch != nil {
-				R.und(rule, key+":branch", "a single branch on issig", "more than one branch on issig", P.Pos(iff.Pos()))
-				return
-			}
-			branch = iff
-		}
-	}
-	if branch == nil {
-		R.bad(rule, key+":branch", "the encoding depends on issig (marker present iff issig)", "no branch on the issig parameter", P.Pos(fn.Pos()))
-		return
-	}
-	// the marker is written exactly under issig
-	nMarker := 0
-	allInstrs(fn, func(i ssa.Instruction) {
-		st, ok := i.(*ssa.Store)
-		if !ok || desc(st.Val) != "true" {
-			return
-		}
-		nMarker++
-		under := false
-		for _, a := range controllingConds(st.Block()) {
-			a = normAtom(a)
-			if desc(a.V) == "arg#1" && a.Want == True {
-				under = true
-			}
-		}
-		R.decide(rule, key+":marker-iff-issig", "the boolean marker is written only on the path where issig is true", under, "the marker store is not control-dependent on issig alone", P.Pos(st.Pos()))
-	})
+	R.decide(rule, key+":branch", "the encoding depends on issig (marker present iff issig)", nBranch >= 1, fmt.Sprintf("%d branches on the issig parameter", nBranch), P.Pos(fn.Pos()))
+	R.decide(rule, key+":marker-iff-issig", "the boolean marker is written only on the path where issig is true", markerOK && nMarker >= 1, "a marker store is not control-dependent on issig alone", P.Pos(fn.Pos()))
 	R.decide(rule, key+":marker-present", "a boolean marker is written for signature sessions", nMarker == 1, fmt.Sprintf("%d marker stores", nMarker), P.Pos(fn.Pos()))
 	elemD := "call:big.(*Int).Go(arg#0[#i])"
 	countD := "call:math/big.NewInt(len(arg#0))"
 	for _, sig := range []bool{true, false} {
-		chosen := branch.Block().Succs[0]
-		if !sig {
-			chosen = branch.Block().Succs[1]
-		}
-		phiEnv = map[*ssa.Phi]ssa.Value{}
-		for _, b := range fn.Blocks {
-			for _, ins := range b.Instrs {
-				phi, ok := ins.(*ssa.Phi)
-				if !ok {
-					continue
-				}
-				for i, p := range b.Preds {
-					if p == chosen || chosen.Dominates(p) {
-						other := false
-						for j, q := range b.Preds {
-							if j != i && (q == chosen || chosen.Dominates(q)) {
-								other = true
-							}
-						}
-						if !other {
-							phiEnv[phi] = phi.Edges[i]
-						}
-					}
-				}
-			}
-		}
-		arg := stripConv(marshal.Call.Args[0])
-		if phi, ok := arg.(*ssa.Phi); ok {
-			if e, ok := phiEnv[phi]; ok {
-				arg = e
-			}
-		}
-		seq, ok := seqOf(arg)
-		got := seqString(seq)
 		want := "[" + countD + ", (" + elemD + ")*]"
 		if sig {
 			want = "[true, " + countD + ", (" + elemD + ")*]"
 		}
 		c := fmt.Sprintf("%s:sequence[issig=%v]", key, sig)
 		what := fmt.Sprintf("with issig=%v the encoded sequence is %s", sig, want)
-		if !ok {
-			R.und(rule, c, what, "slice construction idiom not recognised for "+desc(arg), P.Pos(marshal.Pos()))
+		if !seqOK[sig] {
+			R.und(rule, c, what, "slice construction idiom not recognised for "+desc(marshal.Call.Args[0]), P.Pos(marshal.Pos()))
 		} else {
-			R.decide(rule, c, what, got == want, "got "+got, P.Pos(marshal.Pos()))
+			R.decide(rule, c, what, seqs[sig] == want, "got "+seqs[sig], P.Pos(marshal.Pos()))
 		}
-		phiEnv = map[*ssa.Phi]ssa.Value{}
 	}
 }
 
